@@ -75,6 +75,12 @@ Theorem C10_length : forall max_dt cur out, 0 < max_dt ->
 Proof. exact steps_length. Qed.
 Print Assumptions C10_length.
 
+(** Moving to the time the estimate is already at: the wrapped filter is not called and the estimate is returned as it is. *)
+Theorem C10_equal_times_identity : forall (St : Type) (pm : QNum -> St -> St) max_dt cur st out,
+  0 < max_dt -> cur == out -> propagate QNum St pm max_dt cur st out = Some st.
+Proof. exact propagate_equal_id. Qed.
+Print Assumptions C10_equal_times_identity.
+
 (** non-vacuity: a forward move with a remainder, and a backward move *)
 Example C10_nonvacuous :
   map Qred (qsteps (1 # 10) 0 (35 # 100)) = [1 # 10; 1 # 10; 1 # 10; 1 # 20] /\
